@@ -87,6 +87,9 @@ class IO(object):
         log.close(self.socket)
         if self.encrypted:
             try:
+                # Send our close_notify but do not wait for the peer's: a
+                # peer that stays silent must not hold the session open.
+                self.socket.settimeout(0.0)
                 self.socket.unwrap()
             except ValueError:
                 pass
